@@ -308,14 +308,28 @@ pub fn check_c01(cx: &Ctx, rep: &mut Report, expect_converge: bool) {
             }
         }
         let q = settle(cx, s);
-        let diag = q.map(|q| diagnose(cx, q)).unwrap_or_else(|| "does-not-settle".into());
+        let mut diag = q.map(|q| diagnose(cx, q)).unwrap_or_else(|| "does-not-settle".into());
+        // a member stuck on the branch of its own commit: which way did it apply that commit (merge_pending_commit takes
+        // no snapshot - defect D1 -, the echo path does)
+        if diag.contains("on-branch-of=own-commit") {
+            let path = g.path_to(s);
+            let by = if path.iter().any(|a| *a == Action::MergeOwn) {
+                "merge"
+            } else if path.iter().any(|a| matches!(a, Action::Deliver(i) if w.pool[*i].kind == EvKind::Commit && w.pool[*i].author == g.member)) {
+                "echo"
+            } else {
+                "start-state"
+            };
+            diag.push_str(&format!(",own-commit-applied-by={by}"));
+        }
         let sig = format!("C01|{class}|{:?}|{}", g.regime, diag);
         if !seen_sig.insert(sig.clone()) {
             rep.add_count("violating_histories_same_diagnosis", 1);
             continue;
         }
         let path = g.path_to(s);
-        let pred = |e: usize| verdict[e] == Some(class) && settle(cx, e).map(|q| diagnose(cx, q)).as_deref() == Some(diag.as_str());
+        let diag_core = diag.split(",own-commit-applied-by=").next().unwrap_or("").to_string();
+        let pred = |e: usize| verdict[e] == Some(class) && settle(cx, e).map(|q| diagnose(cx, q)).as_deref() == Some(diag_core.as_str());
         let min = g.minimise(&path, &pred);
         let end = g.run(&min).unwrap_or(s);
         let q = settle(cx, end);
@@ -784,6 +798,58 @@ pub fn check_c02(cx: &Ctx, rep: &mut Report) {
 // ---------------------------------------------------------------------------------------
 // C03: only members of the sending epoch obtain plaintext
 // ---------------------------------------------------------------------------------------
+
+/// C03 on members' own graphs: a member that has settled (every event offered again until nothing changes) does not
+/// keep in its MLS roster a user the winning branch has removed - otherwise what it sends next is readable by that user.
+pub fn check_c03_roster(cx: &Ctx, rep: &mut Report) {
+    let g = cx.g;
+    let w = cx.w;
+    if g.capped {
+        return;
+    }
+    let leaf = w.leaf();
+    if !leaf.members.iter().any(|m| *m == g.member) {
+        return;
+    }
+    let leaf_pks: std::collections::BTreeSet<String> = leaf.members.iter().filter_map(|n| w.pks_by_name.get(n).cloned()).collect();
+    let mut seen: std::collections::BTreeSet<String> = Default::default();
+    for s in 0..g.states.len() {
+        let Some(q) = settle(cx, s) else { continue };
+        if let Some((p, _)) = g.states[s].parent {
+            if settle(cx, p) == Some(q) {
+                continue;
+            }
+        }
+        let Some(core) = g.states[q].g.as_ref().and_then(|x| x.mls.clone()) else { continue };
+        let extra: Vec<String> = core.members.iter().filter(|pk| !leaf_pks.contains(*pk)).map(|pk| w.names_by_pk.get(pk).cloned().unwrap_or_else(|| "unknown".into())).collect();
+        rep.case(&format!("roster|{}|{}|extra={}", w.sc.name, g.member, extra.len()));
+        if extra.is_empty() {
+            continue;
+        }
+        let mut diag = diagnose(cx, q);
+        if diag.contains("on-branch-of=own-commit") {
+            let path = g.path_to(s);
+            let by = if path.iter().any(|a| *a == Action::MergeOwn) {
+                "merge"
+            } else if path.iter().any(|a| matches!(a, Action::Deliver(i) if w.pool[*i].kind == EvKind::Commit && w.pool[*i].author == g.member)) {
+                "echo"
+            } else {
+                "start-state"
+            };
+            diag.push_str(&format!(",own-commit-applied-by={by}"));
+        }
+        let sig = format!("C03|removed-user-still-in-roster-after-settling|{:?}|{}", g.regime, diag);
+        if !seen.insert(sig.clone()) {
+            continue;
+        }
+        let path = g.path_to(s);
+        rep.finding(
+            sig,
+            format!("member {} ({}): after [{}] and re-offering everything until nothing changes, its MLS roster still holds {extra:?}, removed on the winning branch: what it sends next is readable by them ({diag})", g.member, member_role(w, &g.member), trace_labels(cx, &path).join(" ; ")),
+            detail(cx, &path, json!({"still_in_roster": extra, "diagnosis": diag})),
+        );
+    }
+}
 
 pub fn check_c03(cx: &Ctx, rep: &mut Report) {
     let g = cx.g;
